@@ -194,7 +194,7 @@ class Gen:
                 kind = r.choice(kinds)
                 self.bump('opt-' + kind)
                 cxx = {'optional': 'std::optional<%s>', 'unique_ptr': 'std::unique_ptr<%s>', 'shared_ptr': 'std::shared_ptr<%s>',
-                       'rawptr': 'const %s*', 'variant': 'std::variant<std::monostate, %s>'}[kind] % inner['cxx']
+                       'rawptr': '%s const*', 'variant': 'std::variant<std::monostate, %s>'}[kind] % inner['cxx']
                 return {'ty': ty, 'cxx': cxx, 'kind': 'opt', 'optkind': kind, 'inner': inner}
             if deser:
                 return None
@@ -323,7 +323,7 @@ class Gen:
                 return 'std::make_shared<%s>(%s)' % (it, inner)
             if ok == 'rawptr':
                 name = 'vr_static_%d' % len(statics)
-                statics.append('static const %s %s = %s;' % (it, name, inner))
+                statics.append('static %s const %s = %s;' % (it, name, inner))
                 return 'static_cast<%s>(&%s)' % (rt['cxx'], name)
             return '%s{std::in_place_index<1>, %s}' % (rt['cxx'], inner)
         if k == 'variant':
